@@ -352,6 +352,12 @@ def double_crash_job(arg):
             kind1 = open(report).read().split("\t")[1]
             # snapshot of the state left by the first kill; the store always lives at `run` (absolute link targets)
             os.rename(run, crashed)
+            cr_, cc_ = scen.companion(run), scen.companion(crashed)
+            if cc_ and os.path.lexists(cc_):
+                shutil.rmtree(cc_, ignore_errors=True)
+            if cr_ and os.path.isdir(cr_):
+                # the part of the scenario that lives on another file system belongs to the snapshot as well
+                os.rename(cr_, cc_)
             _copy_store(crashed, run)
             t2 = core.fork_call(_child, (sc["action"], run, "trace", None, None), timeout=120)
             shutil.rmtree(run)
@@ -478,7 +484,8 @@ def run(tier, seed):
             else:
                 rep.merge(r)
     if tier == "thorough":
-        extra = [("double", (i, 4, (seed + i) % 4)) for i in range(len(scs))] + [("strace", i) for i in range(len(scs))]
+        # (the large-frame scenario rebuilds a million-row table in every run: every 24th first crash point there)
+        extra = [("double", (i, 24, (seed + i) % 24) if "large-frame" in scs[i]["name"] else (i, 4, (seed + i) % 4)) for i in range(len(scs))] + [("strace", i) for i in range(len(scs))]
         ex = core.fork_map(lambda j: {"double": double_crash_job, "strace": strace_job}[j[0]](j[1]), extra, timeout=3300)
         for j, r in zip(extra, ex):
             if isinstance(r, core.JobFailed):
